@@ -49,17 +49,28 @@ pub fn check_c04(buf: &[u8], off: usize, width_sel: u8, spec_sel: u8) -> Result<
     Ok(())
 }
 
-/// C15: StringTable::get_raw == the NUL-terminated run at off
+/// C15: StringTable::get_raw == the NUL-terminated run at off; get == the same bytes as a str iff they are valid UTF-8
 pub fn check_c15(buf: &[u8], off: usize) -> Result<(), String> {
     let t = elf::string_table::StringTable::new(buf);
     let r = t.get_raw(off);
     let nul = if off < buf.len() { buf[off..].iter().position(|&b| b == 0) } else { None };
     match (r, nul) {
-        (Ok(s), Some(k)) => { if s != &buf[off..off + k] { fail!("get_raw({}) returned {:?}, expected {:?}", off, s, &buf[off..off + k]); } Ok(()) }
-        (Err(_), None) => Ok(()),
+        (Ok(s), Some(k)) => { if s != &buf[off..off + k] { fail!("get_raw({}) returned {:?}, expected {:?}", off, s, &buf[off..off + k]); } }
+        (Err(_), None) => {}
         (Ok(s), None) => { fail!("get_raw({}) returned Ok({:?}) but no NUL follows inside the table", off, s); }
         (Err(e), Some(_)) => { fail!("get_raw({}) returned Err({:?}) although a NUL-terminated string starts there", off, e); }
     }
+    let g = t.get(off);
+    match nul {
+        None => if g.is_ok() { fail!("get({}) is Ok although get_raw is an error", off); },
+        Some(k) => match (g, core::str::from_utf8(&buf[off..off + k])) {
+            (Ok(s), Ok(w)) => if s.as_bytes() != w.as_bytes() { fail!("get({}) returned {:?}, expected {:?}", off, s, w); },
+            (Err(_), Err(_)) => {}
+            (Ok(s), Err(_)) => fail!("get({}) returned Ok({:?}) although the bytes are not valid UTF-8", off, s),
+            (Err(e), Ok(w)) => fail!("get({}) returned Err({:?}) although the string {:?} is valid UTF-8", off, e, w),
+        },
+    }
+    Ok(())
 }
 
 /// C09: u32 table coherence: len, is_empty, get(i), iteration
